@@ -270,11 +270,11 @@ func (lcp *LCPStateMachine) closeInternal(reason string) {
 		lcp.setState(LCPStateClosing)
 	case LCPStateOpened:
 		// This-Layer-Down
-		lcp.initializeRestartCount()
+		lcp.initializeTerminateCount()
 		lcp.sendTerminateRequest(reason)
 		lcp.setState(LCPStateClosing)
 	case LCPStateReqSent, LCPStateAckRcvd, LCPStateAckSent:
-		lcp.initializeRestartCount()
+		lcp.initializeTerminateCount()
 		lcp.sendTerminateRequest(reason)
 		lcp.setState(LCPStateClosing)
 	}
@@ -906,6 +906,12 @@ func (lcp *LCPStateMachine) SendProtocolReject(protocol uint16, data []byte) {
 
 func (lcp *LCPStateMachine) initializeRestartCount() {
 	lcp.restartCount = lcp.config.MaxConfigure
+}
+
+// initializeTerminateCount sets the restart counter for Terminate-Requests
+// (Max-Terminate, RFC 1661 4.6), not the Configure-Request limit.
+func (lcp *LCPStateMachine) initializeTerminateCount() {
+	lcp.restartCount = lcp.config.MaxTerminate
 }
 
 func (lcp *LCPStateMachine) zeroRestartCount() {
